@@ -1,6 +1,8 @@
 package mon
 
 import (
+	"bytes"
+	"encoding/hex"
 	"fmt"
 	"sort"
 	"strings"
@@ -330,6 +332,33 @@ func runC07(c *core.Ctx) {
 			w.Write(p, k.content())
 		}
 		k.Do("commit-all")
+		if (w.Hist-base)%10 == 3 {
+			// a name that contains the raw id of another entry: "path, id, path, id" laid end to end reads the same for the
+			// committed entries (p1,h1)(p2,h2) and for the single staged entry (p1+h1+p2, h2)
+			mk := func(tag string) ([]byte, string) {
+				for i := 0; ; i++ {
+					b := []byte(fmt.Sprintf("%s %d %d\n", tag, w.Hist, i))
+					raw, _ := hex.DecodeString(gitfmt.BlobID(b))
+					if bytes.IndexFunc(raw, func(r rune) bool { return r < 0x20 || r == '/' || r == 0x7f }) < 0 { // no separator, no control character (a line feed in a name makes any listing ambiguous)
+						return b, string(raw)
+					}
+				}
+			}
+			d := pickS(k.R, []string{"sp/", "zz splice/", "0/"})
+			ca, ra := mk("alpha")
+			cb, _ := mk("beta")
+			w.Write(d+"a0", ca)
+			w.Write(d+"b0", cb)
+			k.goit("add", d+"a0", d+"b0")
+			k.goit("commit", "-m", "two entries")
+			k.goit("rm", d+"a0", d+"b0")
+			w.Write(d+"a0"+ra+d+"b0", cb)
+			k.goit("add", ".")
+			k.goit("status")
+			k.goit("commit", "-m", "one entry whose name splices the two")
+			k.goit("status")
+			c.Count("C07.spliced-name-histories")
+		}
 		if w.Hist == base+1 || (c.Thorough() && (w.Hist-base)%1000 == 1) {
 			// width: one directory with more than 2048 sub-directories (and a root with several hundred)
 			var wide []string
